@@ -59,16 +59,20 @@ Fixpoint add_hist (t : tree) (nw : list revid) (base : option revid) (deleted : 
       end
   end.
 
-(* flags are computed on the tree before pruning; the pruned tree is what gets stored *)
-Definition finish (limit : N) (t : tree) : doc :=
+(* flags are computed on the tree before pruning; the pruned tree is what gets stored.
+   [fx = true] (repaired code, commit ac6ea40): when pruneRevisions pruned anything, the Branched flag -
+   and only it - is recomputed from winningRevision on the pruned tree.  [fx = false]: the old code. *)
+Definition finish (fx : bool) (limit : N) (t : tree) : doc :=
   let d := update_flags t in
-  D (fst (prune limit t)) (dcur d) (ddel d) (dconf d) (dbranch d).
+  let t' := fst (prune limit t) in
+  D t' (dcur d) (ddel d) (dconf d)
+    (if fx && (0 <? snd (prune limit t)) then 1 <? w_leaves (winner_fold (leaves t')) else dbranch d).
 
 Inductive op :=
 | OPush (hist : list revid) (deleted : bool) (noConflicts : bool)   (* PutExistingRev: hist[0] is the new rev *)
 | OPut (parent : option revid) (deleted : bool) (newid : revid).    (* Put; newid = the id CreateRevID produced *)
 
-Definition push_step (allowC : bool) (limit : N) (d : doc) (hist : list revid) (deleted noC : bool)
+Definition push_step (fx allowC : bool) (limit : N) (d : doc) (hist : list revid) (deleted noC : bool)
   : doc * result :=
   match hist with
   | [] => (d, RErr)
@@ -79,19 +83,19 @@ Definition push_step (allowC : bool) (limit : N) (d : doc) (hist : list revid) (
       | _ => if illegal_conflict allowC noC d parent deleted hist then (d, RConflict)
              else match add_hist (dtree d) nw parent deleted with
                   | None => (d, RErr)
-                  | Some t' => (finish limit t', ROk)
+                  | Some t' => (finish fx limit t', ROk)
                   end
       end
   end.
 
-Definition put_step (allowC : bool) (limit : N) (d : doc) (parent : option revid) (deleted : bool)
+Definition put_step (fx allowC : bool) (limit : N) (d : doc) (parent : option revid) (deleted : bool)
            (newid : revid) : doc * result :=
   let t := dtree d in
   let do_add (par : option revid) :=
       (* generation = parent generation + 1 *)
       if negb (gen newid =? gen (wid par) + 1) then (d, RErr)
       else match add t (R newid par deleted) with
-           | Some t' => (finish limit t', ROk)
+           | Some t' => (finish fx limit t', ROk)
            | None => (d, RErr)
            end in
   match parent with
@@ -104,14 +108,14 @@ Definition put_step (allowC : bool) (limit : N) (d : doc) (parent : option revid
               else do_add (Some p)
   end.
 
-Definition step (allowC : bool) (limit : N) (d : doc) (o : op) : doc * result :=
+Definition step (fx allowC : bool) (limit : N) (d : doc) (o : op) : doc * result :=
   match o with
-  | OPush hist deleted noC => push_step allowC limit d hist deleted noC
-  | OPut parent deleted newid => put_step allowC limit d parent deleted newid
+  | OPush hist deleted noC => push_step fx allowC limit d hist deleted noC
+  | OPut parent deleted newid => put_step fx allowC limit d parent deleted newid
   end.
 
-Fixpoint run (allowC : bool) (limit : N) (d : doc) (ops : list op) : doc :=
+Fixpoint run (fx allowC : bool) (limit : N) (d : doc) (ops : list op) : doc :=
   match ops with
   | [] => d
-  | o :: r => run allowC limit (fst (step allowC limit d o)) r
+  | o :: r => run fx allowC limit (fst (step fx allowC limit d o)) r
   end.
